@@ -13,7 +13,7 @@ fn hex(b: &[u8]) -> String {
     b.iter().take(600).map(|x| format!("{:02x}", x)).collect()
 }
 
-fn top_level_arity(text: &str) -> Option<usize> {
+fn top_level_arity(text: &str) -> Option<(usize, usize)> {
     let t = text.trim();
     if !t.starts_with('(') || !t.ends_with(')') {
         return None;
@@ -33,8 +33,32 @@ fn top_level_arity(text: &str) -> Option<usize> {
         }
         members.last_mut().unwrap().push(c);
     }
-    // PhantomData members are erased (C17), trailing comma leaves an empty member
-    Some(members.iter().map(|m| m.trim()).filter(|m| !m.is_empty() && !m.starts_with("PhantomData")).count())
+    // PhantomData members are erased (C17), trailing comma leaves an empty member. Members that are a transparent
+    // wrapper of PhantomData (`Box<PhantomData<_>>`, `&mut PhantomData<_>`) are a grey zone: erased or kept, either is accepted.
+    let mut kept = 0;
+    let mut optional = 0;
+    for m in members.iter().map(|m| m.trim()).filter(|m| !m.is_empty()) {
+        let mut t = m;
+        let mut wrapped = false;
+        loop {
+            let next = ["Box<", "Box <", "Rc<", "Rc <", "Arc<", "Arc <", "&'static mut ", "& 'static mut ", "&'static ", "& 'static "].iter().find_map(|p| t.strip_prefix(p));
+            match next {
+                Some(r) => {
+                    wrapped = true;
+                    t = r.trim_start();
+                }
+                None => break,
+            }
+        }
+        if t.starts_with("PhantomData") {
+            if wrapped {
+                optional += 1;
+            }
+        } else {
+            kept += 1;
+        }
+    }
+    Some((kept, kept + optional))
 }
 
 /// first difference between two values, as a path
@@ -104,13 +128,68 @@ pub fn run(a: &Args) -> Report {
     let idx: Vec<usize> = es.iter().enumerate().filter(|(_, e)| (prop == "C03") == e.derived).filter(|(_, e)| prop == "C04" || e.sample.is_some()).map(|(i, _)| i).collect();
     let rounds = a.u("rounds", if thorough { 12 } else { 2 });
     let mut cfg = a.run_cfg(idx.len() as u64 * rounds);
+    let n_individual = idx.len() as u64 * rounds;
     if !a.has("case") {
-        cfg.cases = idx.len() as u64 * rounds;
+        // every in-scope type `rounds` times on its own, then a quarter as many batch registrations
+        cfg.cases = n_individual + n_individual / 4;
     }
     let no_bitvec = a.has("no-bitvec");
     let mut total = Report::default();
     total.count("corpus_entries_in_scope", idx.len() as u64);
+    let phantomish: Vec<usize> = idx.iter().copied().filter(|j| es[*j].text.contains("PhantomData")).collect();
     let body = run_parallel(&cfg, |i, rep| {
+        if i >= n_individual {
+            // several types registered in one `register_types` call: the id handed back for the k-th type must describe the k-th type
+            let mut rng = Rng::derive(seed ^ 0x33, i);
+            let mut batch: Vec<usize> = (0..rng.range(2, 6)).map(|_| *rng.pick(&idx)).collect();
+            if !phantomish.is_empty() && rng.flip() {
+                let at = rng.below(batch.len());
+                batch.insert(at, *rng.pick(&phantomish));
+            }
+            let metas: Vec<scale_info::MetaType> = batch.iter().map(|j| (es[*j].meta)()).collect();
+            let mut r = Registry::new();
+            let ids: Vec<u32> = match guard(|| r.register_types(metas)) {
+                Ok(v) => v.into_iter().map(|s| s.id).collect(),
+                Err(p) => {
+                    rep.violation(&format!("{}/registration-panic", prop), p, json!({"batch": batch.iter().map(|j| es[*j].text).collect::<Vec<_>>()}));
+                    return;
+                }
+            };
+            let case = || json!({"case": i, "seed": seed, "batch": batch.iter().map(|j| es[*j].text).collect::<Vec<_>>(), "ids": ids});
+            rep.count("batches_registered", 1);
+            if ids.len() != batch.len() {
+                rep.violation(&format!("{}/batch-ids", prop), format!("register_types was given {} types and handed back {} ids", batch.len(), ids.len()), case());
+                return;
+            }
+            let reg: PortableRegistry = r.into();
+            for (j, id) in batch.iter().zip(&ids) {
+                let e = &es[*j];
+                if no_bitvec && e.text.contains("BitVec") {
+                    continue;
+                }
+                let Some(sample) = e.sample else { continue };
+                for _ in 0..8 {
+                    let Ok((bytes, model)) = guard(|| sample(&mut rng)) else { return };
+                    rep.eval(None);
+                    match guard(|| valdec::decode_exact(&reg, *id, &bytes)) {
+                        Ok(Ok(got)) if val_eq(&got, &model) => rep.count("batch_values_decoded", 1),
+                        Ok(Ok(got)) => {
+                            rep.violation(&format!("{}/batch-value-mismatch", prop), format!("`{}` registered in a batch: the id handed back ({}) describes another value\n  decoded  {}\n  expected {}", e.text, id, show(&got), show(&model)), case());
+                            return;
+                        }
+                        Ok(Err(why)) => {
+                            rep.violation(&format!("{}/batch-undecodable", prop), format!("`{}` registered in a batch: the id handed back ({}) does not describe its bytes: {}", e.text, id, why), case());
+                            return;
+                        }
+                        Err(p) => {
+                            rep.inconclusive(format!("schema-directed decoder panicked: {}", p));
+                            return;
+                        }
+                    }
+                }
+            }
+            return;
+        }
         let e = &es[idx[(i % idx.len() as u64) as usize]];
         if no_bitvec && e.text.contains("BitVec") {
             return;
@@ -139,10 +218,10 @@ pub fn run(a: &Args) -> Report {
                 if ty.type_def != TypeDef::Primitive(TypeDefPrimitive::Char) {
                     rep.violation("C04/shape", "char is not described as the char primitive".into(), json!({"type": e.text}));
                 }
-            } else if let Some(n) = top_level_arity(e.text) {
+            } else if let Some((lo, hi)) = top_level_arity(e.text) {
                 match &ty.type_def {
-                    TypeDef::Tuple(t) if t.fields.len() == n => rep.count("tuple_shapes_checked", 1),
-                    other => rep.violation("C04/shape", format!("{}-tuple is described as {:?}", n, other), json!({"type": e.text})),
+                    TypeDef::Tuple(t) if t.fields.len() >= lo && t.fields.len() <= hi => rep.count("tuple_shapes_checked", 1),
+                    other => rep.violation("C04/shape", format!("a tuple with {} non-PhantomData members is described as {:?}", lo, other), json!({"type": e.text})),
                 }
             }
             return;
